@@ -166,6 +166,19 @@ func c17Ops(c *h.Ctx) []c17Op {
 		return &batchShared{batched.NewBasicBatchedIssuer(wrap1{a}, wrap2{b}), a, b, kid1, kid2}
 	}
 	k := func(i int) int { return ((i % nPrep) + nPrep) % nPrep }
+	// requests the issuers refuse: undecodable / identity / short blinded elements
+	bad1 := []*type1.BasicPrivateTokenRequest{
+		{TokenKeyID: kid1[31], BlindedReq: bytes.Repeat([]byte{0xff}, 49)},
+		{TokenKeyID: kid1[31], BlindedReq: []byte{0}},
+		{TokenKeyID: kid1[31], BlindedReq: req1[0].BlindedReq[:20]},
+		{TokenKeyID: kid1[31], BlindedReq: nil},
+	}
+	bad5 := []*type5.BatchedPrivateTokenRequest{
+		{TokenKeyID: kid5[31], BlindedReq: [][]byte{bytes.Repeat([]byte{0xff}, 32)}},
+		{TokenKeyID: kid5[31], BlindedReq: [][]byte{req5[0].BlindedReq[0], make([]byte, 32)}},
+		{TokenKeyID: kid5[31], BlindedReq: [][]byte{req5[0].BlindedReq[0][:7]}},
+		{TokenKeyID: kid5[31], BlindedReq: nil},
+	}
 	return []c17Op{
 		{"type1.TokenKeyID", mk1, func(s any, i int) []byte { return s.(*t1Shared).iss.TokenKeyID() }},
 		{"type1.TokenKey", mk1, func(s any, i int) []byte { b, _ := s.(*t1Shared).iss.TokenKey().MarshalBinary(); return b }},
@@ -181,6 +194,51 @@ func c17Ops(c *h.Ctx) []c17Op {
 				return okErr(err)
 			}
 			return okErr(is.Verify(tok1[k(i)]))
+		}},
+		// histories: the shared issuer has REFUSED requests before / between the concurrent calls (error paths must leave
+		// it as shareable as successes do)
+		{"type1.Evaluate-after-refusals", func() any {
+			s := mk1().(*t1Shared)
+			for _, b := range bad1 {
+				s.iss.Evaluate(b)
+			}
+			return s
+		}, func(s any, i int) []byte { _, err := s.(*t1Shared).iss.Evaluate(req1[k(i)]); return okErr(err) }},
+		{"type1.mixed-with-refusals", mk1, func(s any, i int) []byte {
+			is := s.(*t1Shared).iss
+			switch i % 4 {
+			case 0:
+				_, err := is.Evaluate(bad1[k(i)%len(bad1)])
+				return okErr(err)
+			case 1:
+				_, err := is.Evaluate(req1[k(i)])
+				return okErr(err)
+			case 2:
+				bt := tok1[k(i)]
+				bt.Authenticator = append([]byte{}, bt.Authenticator...)
+				bt.Authenticator[0] ^= 1
+				return okErr(is.Verify(bt))
+			}
+			return okErr(is.Verify(tok1[k(i)]))
+		}},
+		{"type5.Evaluate-after-refusals", func() any {
+			s := mk5().(*t5Shared)
+			for _, b := range bad5 {
+				s.iss.Evaluate(b)
+			}
+			return s
+		}, func(s any, i int) []byte { _, err := s.(*t5Shared).iss.Evaluate(req5[k(i)]); return okErr(err) }},
+		{"type5.mixed-with-refusals", mk5, func(s any, i int) []byte {
+			is := s.(*t5Shared).iss
+			switch i % 3 {
+			case 0:
+				_, err := is.Evaluate(bad5[k(i)%len(bad5)])
+				return okErr(err)
+			case 1:
+				_, err := is.Evaluate(req5[k(i)])
+				return okErr(err)
+			}
+			return okErr(is.Verify(tok5[k(i)]))
 		}},
 		{"type5.TokenKeyID", mk5, func(s any, i int) []byte { return s.(*t5Shared).iss.TokenKeyID() }},
 		{"type5.Evaluate", mk5, func(s any, i int) []byte { _, err := s.(*t5Shared).iss.Evaluate(req5[k(i)]); return okErr(err) }},
